@@ -177,6 +177,8 @@ type c12Query struct {
 	CD    bool   `json:"cd"`
 	AD    bool   `json:"ad"`
 	EDNS  int    `json:"edns"`
+	// RespTarget is the CNAME target of the upstream answer given to FilterResponse.
+	RespTarget string `json:"resptarget"`
 }
 
 type c12Event struct {
@@ -277,7 +279,7 @@ func TestVerifC12Twin(t *testing.T) {
 			if v["l2"]%2 == 0 {
 				l2 += "@@||al.c12.example^\n"
 			} else {
-				l2 += "||b1.c12.example^$dnstype=AAAA\n"
+				l2 += "||b1.c12.example^$dnstype=AAAA\n||b2.c12.example^$dnstype=A\n"
 			}
 			content.set("/lists/1", l1)
 			content.set("/lists/2", l2)
@@ -386,9 +388,14 @@ func TestVerifC12Twin(t *testing.T) {
 			switch r := rng.Intn(100); {
 			case r < 70:
 				p := profs[rng.Intn(len(profs))]
-				q := c12Query{Prof: p.id, Host: hosts[rng.Intn(len(hosts))], QType: []uint16{dns.TypeA, dns.TypeA, dns.TypeAAAA, dns.TypeHTTPS}[rng.Intn(4)],
+				q := c12Query{Prof: p.id, Host: hosts[rng.Intn(len(hosts))], // (also types 256 above another one: a cache key that packs the type into too few bits)
+					QType: []uint16{dns.TypeA, dns.TypeA, dns.TypeAAAA, dns.TypeHTTPS, dns.TypeCAA, dns.TypeAAAA + 256, dns.TypeHTTPS + 256, dns.TypeAAAA}[rng.Intn(8)],
 					DO: rng.Intn(3) == 0, CD: rng.Intn(4) == 0, AD: rng.Intn(4) == 0, EDNS: []int{0, 0, 1232, 4096}[rng.Intn(4)]}
 				ev := c12Event{Ev: "Query", Beh: beh, Q: q, Errs: []string{}}
+				// the CNAME target in the upstream's answer, in the spelling the upstream used (answers are not
+				// lower-cased): whatever the filter makes of each spelling, the cache must not change it
+				respTarget := []string{"b2.c12.example.", "b2.c12.example.", "B2.C12.Example.", "b2.C12.EXAMPLE."}[rng.Intn(4)]
+				ev.Q.RespTarget = respTarget
 				for _, tw := range []*c12Twin{cached, plain} {
 					if tw.plain {
 						tw.mgr.clearAll()
@@ -420,7 +427,7 @@ func TestVerifC12Twin(t *testing.T) {
 					// response side: an upstream answer with a CNAME into the lists
 					resp := new(dns.Msg).SetReply(req)
 					resp.Answer = append(resp.Answer, &dns.CNAME{Hdr: dns.RR_Header{Name: dns.Fqdn(q.Host), Rrtype: dns.TypeCNAME, Class: dns.ClassINET, Ttl: 60},
-						Target: "b2.c12.example."})
+						Target: respTarget})
 					func() {
 						defer func() {
 							if v := recover(); v != nil {
